@@ -71,7 +71,7 @@ Seen == IF NameRule = "bare" THEN FALSE ELSE exists
 
 HInit == /\ disk = Null /\ exists = FALSE /\ mem = Null /\ loaded = FALSE /\ hasC = FALSE
          /\ outcome = "none" /\ hist = <<>> /\ steps = 0
-         /\ table = <<>> /\ tmem = <<>> /\ tloaded = FALSE /\ texists = FALSE
+         /\ table = <<>> /\ tmem = [h \in {1, 2} |-> <<>>] /\ tloaded = [h \in {1, 2} |-> FALSE] /\ texists = FALSE
 
 NewSession ==
     /\ On("session") /\ Step
@@ -211,45 +211,55 @@ HTerminal == steps = MaxSteps
 EmitH == (Record /\ HTerminal) => PrintT(<<"CASE", ToJson([hist |-> hist])>>)
 
 -----------------------------------------------------------------------------
-(* Sampler machine: rows are <<a, b, v>> (arguments and the version of the function that ran) *)
+(* Sampler machine: rows are <<a, b, v>> (arguments and the version of the function that ran).
+   Two Sampler objects (handles 1, 2) may be alive on the same file at the same time: tmem / tloaded are per handle. *)
 CONSTANTS MaxRows
+Handles == {1, 2}
 Rows(n) == [1..n -> AVals \X BVals]
 
-SInit == HInit
+SInit == /\ disk = Null /\ exists = FALSE /\ mem = Null /\ loaded = FALSE /\ hasC = FALSE
+         /\ outcome = "none" /\ hist = <<>> /\ steps = 0
+         /\ table = <<>> /\ tmem = [h \in Handles |-> <<>>] /\ tloaded = [h \in Handles |-> FALSE] /\ texists = FALSE
 
 SLog(a, args) == IF Record THEN Append(hist, [a |-> a, args |-> args,
-                                               o |-> [table |-> table', tmem |-> IF tloaded' THEN tmem' ELSE <<-1>>, exists |-> texists', outcome |-> "ok"]])
+                                               o |-> [table |-> table', exists |-> texists', outcome |-> "ok",
+                                                      tmem |-> [h \in Handles |-> IF tloaded'[h] THEN tmem'[h] ELSE <<-1>>]]])
                  ELSE hist
 
-(* sample_combos(n): gen_cases_fnargs draws n cases, run_cases(to_df), add_df: load, concat, save *)
-Sample(rows, v, via) ==
+(* sample_combos(n) on handle h: gen_cases_fnargs draws n cases, run_cases(to_df), add_df: load the file if it exists
+   (else keep what the object holds), concat, save; via = "crop": the same through sow_samples / grow / reap *)
+Sample(h, rows, v, via) ==
     /\ Step /\ Len(table) + Len(rows) <= MaxRows
     /\ LET new == [k \in 1..Len(rows) |-> <<rows[k][1], rows[k][2], v>>]
-           base == IF texists THEN table ELSE (IF ~tloaded THEN <<>> ELSE tmem)
+           base == IF texists THEN table ELSE (IF ~tloaded[h] THEN <<>> ELSE tmem[h])
        IN  /\ table' = base \o new
-           /\ tmem' = base \o new /\ tloaded' = TRUE
+           /\ tmem' = [tmem EXCEPT ![h] = base \o new]
+    /\ tloaded' = [tloaded EXCEPT ![h] = TRUE]
     /\ texists' = TRUE
     /\ outcome' = "ok"
-    /\ hist' = SLog(via, <<rows, v>>)
+    /\ hist' = SLog(via, <<h, rows, v>>)
     /\ UNCHANGED <<disk, exists, mem, loaded, hasC>>
 
-SNewSession ==
+SNewSession(h) ==
     /\ Step
-    /\ tmem' = <<>> /\ tloaded' = FALSE
+    /\ tmem' = [tmem EXCEPT ![h] = <<>>] /\ tloaded' = [tloaded EXCEPT ![h] = FALSE]
     /\ outcome' = "ok"
     /\ UNCHANGED <<table, texists>>
-    /\ hist' = SLog("session", <<>>)
+    /\ hist' = SLog("session", <<h>>)
     /\ UNCHANGED <<disk, exists, mem, loaded, hasC>>
 
-SampleAny == \E n \in 1..3 : \E rows \in Rows(n) : \E v \in Vers : \E via \in {"sample", "crop"} : Sample(rows, v, via)
-SNext == SampleAny \/ SNewSession
+SampleAny == \E h \in Handles : \E n \in 1..3 : \E rows \in Rows(n) : \E v \in Vers : \E via \in {"sample", "crop"} : Sample(h, rows, v, via)
+SNewSessionAny == \E h \in Handles : SNewSession(h)
+SNext == SampleAny \/ SNewSessionAny
 SpecS == SInit /\ [][SNext]_vars
 
 (* C15 *)
 AppendOnly == [][texists => IsPrefix(table, table')]_vars
-ExactlyN == [][\A n \in 1..3 : \A rows \in Rows(n) : \A v \in Vers : \A via \in {"sample", "crop"} :
-                 Sample(rows, v, via) => Len(table') = Len(table) + n]_vars
-TableMemEqDisk == (tloaded /\ texists) => tmem = table
+ExactlyN == [][\A h \in Handles : \A n \in 1..3 : \A rows \in Rows(n) : \A v \in Vers : \A via \in {"sample", "crop"} :
+                 Sample(h, rows, v, via) => Len(table') = Len(table) + n]_vars
+(* the handle that just sampled agrees with the file *)
+TableMemEqDisk == \A h \in Handles : (tloaded[h] /\ texists /\ hist # <<>> /\ hist[Len(hist)].a # "session"
+                                      /\ hist[Len(hist)].args[1] = h) => tmem[h] = table
 HView == <<disk, exists, mem, loaded, hasC, outcome, table, tmem, tloaded, texists>>
 EmitS == (Record /\ HTerminal) => PrintT(<<"CASE", ToJson([hist |-> hist])>>)
 =============================================================================
